@@ -388,7 +388,36 @@ func runC13(c *core.Ctx) {
 			}
 			c13Judge(c, d, sb.String(), "inserted-byte")
 			c13Judge(c, d, sb.String()+brk, "inserted-byte")
+			// ... and at the very start and the very end (what a trimming decoder would strip)
+			c13Judge(c, d, string(ins)+e+brk, "inserted-byte-at-start")
+			c13Judge(c, d, e+brk+string(ins), "inserted-byte-at-end")
+			c13Judge(c, d, string(ins)+brk+e+string(ins), "inserted-byte-at-both-ends")
 		}
+	})
+
+	// the encoders are functions of the CONTENT of their argument: the caller refills the same
+	// buffer and encodes again (every length up to 80, where a cache of "the last input" would sit)
+	c.Job("same-buffer-refilled", 81*c.N(2, 20), func(i int, r *core.Rand) {
+		n := i % 81
+		buf := r.Bytes(n)
+		c.Eval(1)
+		for round := 0; round < 3; round++ {
+			want32, want32n, want64 := rm.B32Encode(buf), rm.B32EncodeNoPad(buf), rm.B64Encode(buf)
+			got := []string{base32.EncodeToString(buf), base32.EncodeToStringNoPadding(buf), base64.EncodeToString(buf)}
+			if n > 0 {
+				s1, _ := base32.EncodeToStringSafe(buf)
+				s2, _ := base64.EncodeToStringSafe(buf)
+				got = append(got, s1, s2)
+			}
+			for k, w := range []string{want32, want32n, want64, want32, want64}[:len(got)] {
+				if got[k] != w {
+					c.Violate([]string{"base32.EncodeToString", "base32.EncodeToStringNoPadding", "base64.EncodeToString", "base32.EncodeToStringSafe", "base64.EncodeToStringSafe"}[k],
+						"differs-from-bit-level-encoder", gen.Shape{"len": n, "class": "same-buffer-refilled", "round": round}, buf, fmt.Sprintf("%q, expected %q", got[k], w))
+				}
+			}
+			copy(buf, r.Bytes(n)) // the same backing array, other content
+		}
+		c.Nontrivial([]byte("refill"), []byte(fmt.Sprint(i)))
 	})
 
 	// every input length: canonical encodings of 0..90 bytes with 1..4 line breaks ("\n" and "\r\n")
@@ -469,6 +498,24 @@ func runC13(c *core.Ctx) {
 		}
 		if _, err := base64.DecodeStringSafe(mk(base64.MAX_DECODE_SIZE+4, rm.B64Alphabet)); err == nil {
 			c.Violate("base64.DecodeStringSafe", "oversize-accepted", gen.Shape{"len": base64.MAX_DECODE_SIZE + 4}, nil, "")
+		}
+		// the limit is on the length of the INPUT: line breaks count, although they decode to nothing
+		for _, f := range []struct {
+			site  string
+			fn    func(string) ([]byte, error)
+			max   int
+			alpha string
+		}{{"base32.DecodeStringSafe", base32.DecodeStringSafe, base32.MAX_DECODE_SIZE, rm.B32Alphabet}, {"base32.DecodeStringSafeNoPadding", base32.DecodeStringSafeNoPadding, base32.MAX_DECODE_SIZE, rm.B32Alphabet},
+			{"base64.DecodeStringSafe", base64.DecodeStringSafe, base64.MAX_DECODE_SIZE, rm.B64Alphabet}} {
+			if _, err := f.fn(mk(f.max, f.alpha) + "\n"); err == nil {
+				c.Violate(f.site, "oversize-accepted", gen.Shape{"len": f.max + 1, "class": "limit characters followed by a line break"}, nil, "")
+			}
+			if _, err := f.fn(strings.Repeat("\n", f.max+1)); err == nil {
+				c.Violate(f.site, "oversize-accepted", gen.Shape{"len": f.max + 1, "class": "only line breaks"}, nil, "")
+			}
+			if _, err := f.fn(" " + mk(f.max, f.alpha)); err == nil {
+				c.Violate(f.site, "oversize-accepted", gen.Shape{"len": f.max + 1, "class": "leading space"}, nil, "")
+			}
 		}
 		if len(s32) <= base32.MAX_DECODE_SIZE+8 { // the encoding of MAX_ENCODE_SIZE bytes is within the decode limit (checked above by decoding it)
 			c.Bucket("limits-checked")
